@@ -7,7 +7,8 @@
    see harness/C13.cpp): then it calls the model's integrate_named itself; for the 1-D entry point this is the model's
    reentrant_integrand, for the front ends (whose integrands are total functions in the model) the driver unwraps the result.
    Every case line is turned into a value of the model's type [call] and answered by the model's run_call; a session line
-   (several calls made one after the other by one process) by the model's run_session.  The model has no state: the value a
+   (several calls made one after the other by one process) by the model's run_session, a `preinit` line (a call made before main, then
+   the same call made from main) by the model's run_process.  The model has no state: the value a
    call has "in a fresh process" is its value. *)
 open Common
 
@@ -135,6 +136,19 @@ let handler r =
           (match res with Ok v -> put_f v | _ -> ());
           put_w "|"
         end) results
+    end else if op = "preinit" then begin
+      (* the call made before main, then the same call made from main: the model's process with one call in each phase *)
+      let op = word r in
+      let (c, rc, dims) = build_call op r in
+      (match run_process fops stand_in no_mc [c] [] with
+       | [res] ->
+           if put_res res then begin
+             put_rec rc dims;
+             (match run_process fops stand_in no_mc [] [c] with
+              | [Ok v] -> put_f v
+              | _ -> put_w "MODELERR main_phase")
+           end
+       | _ -> put_w "MODELERR process_shape")
     end else begin
       let (c, rc, dims) = build_call op r in
       if put_res (run_call fops stand_in no_mc c) then put_rec rc dims
